@@ -88,7 +88,7 @@ def main():
     open(f"{harn}/Cargo.toml", "w").write(s)
     os.remove(f"{repo}/tests/seeded_demo.rs")
     henv = {"CARGO_TARGET_DIR": f"{WORK}/target-harness"}
-    rc, o = sh("cargo build --release --offline 2>&1 | grep -E '^error' -A8", cwd=harn, timeout=1500, env=henv)
+    rc, o = sh("(cargo build --release --offline && cargo build --profile unchecked --offline) 2>&1 | grep -E '^error' -A8", cwd=harn, timeout=1800, env=henv)
     vp = f"{WORK}/target-harness/release/vp"
     if "error" in o or not os.path.exists(vp):
         print("HARNESS BUILD FAILED", o); meta["status"] = "harness does not build against the change"; meta["build_error"] = o[-600:]
